@@ -131,6 +131,18 @@ CHECKS = {
             "rectangles within 1e-7 relative of touching, circles within 1% of r (shapely 64-gon). Known finding listed: "
             "Circle.shapely_object has radius r/2 (repair would break two pinned tests)",
             "DESIGN.md §4 C06"),
+    "C07": ("exhaustive enumeration of networks x obstacle sets x assignment routes with an exact-geometry oracle, plus "
+            "explicit-state BFS over add / assign / assign-one / remove / remove-list histories on real Scenario objects in "
+            "lock-step with a (present, assigned) reference model",
+            "Inputs: 4 networks x all obstacle sets of size 1 (thorough: and all of size 2; quick: a quarter of the pairs) "
+            "from a 17-obstacle pool (static, dynamic+trajectory incl. late start and turning on the spot, dynamic without "
+            "prediction; rectangle, circle, hexagon; inside / straddling / touching / outside poses) x {assign_obstacles_to_"
+            "lanelets, XML open(lanelet_assignment=True), protobuf open(...)}: per obstacle and time step the recorded centre "
+            "and shape lanelet sets vs exact geometry, registries == inverse relation, every contained obstacle removable, "
+            "registries empty afterwards. Histories: BFS depth 4 (thorough 7) over 4 obstacles on 2 lanelets.",
+            "trusted: mc/geom.py; circles within 1% of r and rotated shapes within 1e-7 of touching are guarded. Known finding "
+            "listed: circular obstacles are assigned with radius r/2 (consequence of the C06 finding)",
+            "DESIGN.md §4 C07"),
 }
 
 NOT_YET = {}
